@@ -7,7 +7,7 @@ ID = "C02"
 PROP_FILE = "C02.v"
 TRANSLATORS = ["unicode_tables"]
 RULE = ("cases = decode lines (grammar-generated integer spellings x payloads, near misses, garbage), "
-        "encode/copy messages (header grid incl. negatives, >255, 2^70, IntEnum members; Unicode payloads). "
+        "encode/copy messages (header grid incl. negatives, >255, 2^70, IntEnum members, False/True; Unicode payloads). "
         "non-trivial = distinct input that is accepted in a non-canonical spelling, or rejected with >=5 ';' "
         "(near miss), or an encode/copy case with non-empty payload or replaced fields")
 ASSUMPTIONS = [
@@ -37,7 +37,7 @@ def gen_cases(ctx):
     # corpus first
     for line in ["1;2;3;0;7;hello\n", " 1_0;+2;-3; 0 ;007;hello w  ", "1;2;3;0;7;", "1;2;3;0;7", "1;2;3;0;7;a;b",
                  "1;255;3;0;6;\x1c", "1;255;3;0;\x1c6;x", "١;٢;٣;٠;٧;x ", "1;2;3;0;7;a\nb\n", "1;2;3;0;7;x\r\n",
-                 "-0;+0;00;0_0;0;\x85", "1;2;3;0;7;  lead", "9" * 30 + ";2;3;0;7;x", "", ";;;;;", "1;2;3;0;1.0;x"]:
+                 "-0;+0;00;0_0;0;\x85", "1;2;3;0;7;  lead", "9007199254740993;2;3;0;7;x", "1;-9007199254740993;3;0;18014398509481985;", "9" * 30 + ";2;3;0;7;x", "", ";;;;;", "1;2;3;0;1.0;x"]:
         cases.append({"kind": "decode", "line": line})
     for _ in range(n):
         k = rng.random()
@@ -55,8 +55,11 @@ def gen_cases(ctx):
             cases.append({"kind": "decode", "line": text.garbage(rng)})
         elif k < 0.85:
             hdr = [rng.choice(HEADER_GRID) if rng.random() < 0.7 else rng.randrange(-300, 70000) for _ in range(5)]
+            if rng.random() < 0.15:          # some fields 0/1, passed to the constructor as False/True (bool is an int)
+                for i in rng.sample(range(5), rng.choice([1, 2])):
+                    hdr[i] = rng.choice([0, 1])
             cases.append({"kind": "encode", "hdr": hdr, "payload": text.payload(rng, wire_ok=rng.random() < 0.8 or None),
-                          "enum": rng.random() < 0.2})
+                          "enum": rng.random() < 0.2, "bools": rng.random() < 0.5})
         else:
             hdr = [rng.choice(HEADER_GRID) if rng.random() < 0.6 else rng.randrange(0, 256) for _ in range(5)]
             repl = {}
@@ -64,7 +67,7 @@ def gen_cases(ctx):
                 if rng.random() < 0.3:
                     repl[f] = text.payload(rng, wire_ok=rng.random() < 0.7 or None) if f == "payload" else rng.choice(HEADER_GRID)
             cases.append({"kind": "copy", "hdr": hdr, "payload": text.payload(rng, wire_ok=rng.random() < 0.85 or None),
-                          "repl": repl})
+                          "repl": repl, "bools": rng.random() < 0.3})
     return cases
 
 
@@ -92,13 +95,18 @@ def impl(case):
         hdr = case["hdr"]
         if kind == "encode":
             h = _enumify(hdr) if case.get("enum") else hdr
+            if case.get("bools"):
+                h = [bool(x) if type(x) is int and x in (0, 1) else x for x in h]
             m = Message(node_id=h[0], child_id=h[1], type=h[2], ack=h[3], sub_type=h[4], payload=case["payload"])
             return ["ok", m.encode()]
         if kind == "copy":
             gw = object()
             m = Message(node_id=hdr[0], child_id=hdr[1], type=hdr[2], ack=hdr[3], sub_type=hdr[4],
                         payload=case["payload"], gateway=gw)
-            c = m.copy(**case["repl"])
+            repl = case["repl"]
+            if case.get("bools"):
+                repl = {k: (bool(v) if type(v) is int and v in (0, 1) else v) for k, v in repl.items()}
+            c = m.copy(**repl)
             keep = c.gateway is gw and all(getattr(m, f) == v for f, v in zip(FIELDS, hdr + [case["payload"]]))
             return ["ok", c.node_id, c.child_id, c.type, c.ack, c.sub_type, c.payload, keep]
     except Exception as exc:  # canonicalise by class
@@ -151,6 +159,15 @@ def monitor(case, obs):
     if kind == "decode":
         if obs[0] == "err":
             return None if obs[1] == "ValueError" else f"decode raised {obs[1]} instead of ValueError"
+        # independent reading of the header: CPython's int() on the six ';' fields of the right-stripped line
+        fs0 = case["line"].rstrip().split(";")
+        if len(fs0) == 6:
+            try:
+                want = [int(f) for f in fs0[:5]]
+            except ValueError:
+                want = None
+            if want is not None and (want != obs[1:6] or obs[6] != fs0[5]):
+                return f"line {case['line']!r} decodes to {obs[1:]}, its fields read {want + [fs0[5]]}"
         m = Message(case["line"])
         e = m.encode()
         if e is None:
@@ -170,7 +187,10 @@ def monitor(case, obs):
         if obs[0] != "ok" or obs[1] is None:
             return f"encode of integer header failed: {obs}"
         if _py_wire_ok(p):
-            m = Message(obs[1])
+            try:
+                m = Message(obs[1])
+            except ValueError:
+                return f"encode({case['hdr']}, {p!r}) = {obs[1]!r} does not decode"
             if [m.node_id, m.child_id, m.type, m.ack, m.sub_type, m.payload] != case["hdr"] + [p]:
                 return f"decode(encode(m)) != m for {case['hdr']} {p!r}"
         return None
